@@ -58,6 +58,19 @@ def r1(ctx, r):
         if cp and show(strip_casts(cp[1])) == "data.size()" and cp[0] == "<" and const_value(cp[2]) is not None:
             floor = max(floor, const_value(cp[2]))
 
+    # lengths as wide as the cursor that come from the input: admitted only through the subtraction-form test
+    wide = set()
+    for e in f.stmts():
+        a = asg(e.node)
+        cands = []
+        if a and key_of(a[0]):
+            cands.append((strip_casts(a[0]), a[1]))
+        if e.node.get("k") == "decl":
+            cands += [({"n": v["n"], "t": v.get("t")}, v["init"]) for v in e.node["vars"] if v.get("init") is not None]
+        for (lhs, rhs) in cands:
+            if ("long" in (lhs.get("t") or "")) and any(t_ in show(rhs) for t_ in ("data.read", "data[")):
+                wide.add(lhs["n"])
+
     def edge(c, truth):
         def extra(x, t):
             cp = common.cmp_parts(strip_casts(x))
@@ -74,7 +87,7 @@ def r1(ctx, r):
             if op in (">=", ">") and ls.get("k") == "bin" and ls.get("op") == "-" and show(strip_casts(ls["lhs"])) in SIZES and key_of(ls["rhs"]) == CUR and key_of(rr):
                 return [("atleast", form(1 if op == ">" else 0, (key_of(rr),)))]
             return None
-        return guard_ops(c, truth, CUR, SIZES, extra)
+        return guard_ops(c, truth, CUR, SIZES, extra, None, wide)
 
     def sym_of(n):
         n = strip_casts(n)
@@ -310,6 +323,11 @@ def r3(ctx, r):
             raise AnalysisBroken("%s: no growth site of %s found" % (last(f.name), names))
         for e in grows:
             r.instance()
+            # transient: appended, moved out to a local and cleared inside the same block (critical section) — nothing persists
+            objt = show(strip_casts(e.node.get("obj") or (asg(e.node) or [{}])[0] or {}))
+            if e.node.get("k") == "mcall" and any(x.kind == "stmt" and x.node.get("k") == "mcall" and last(x.node.get("callee", "")) == "clear" and show(strip_casts(x.node.get("obj") or {})) == objt for x in e.block.elems[e.idx + 1:]):
+                r.ok("%s: `%s` is moved out and cleared in the same critical section" % (last(f.name), show(e.node)[:40]))
+                continue
             # a growth of persistent state must be followed by a limit test before the function returns normally,
             # unless the element itself lies behind a limit test that already covers the new size
             w = search(f, e, "exit", stop=lambda x: any(x.block is b for b in lims), eh=False)
@@ -402,22 +420,55 @@ def r4(ctx, r):
         raise AnalysisBroken("WebSocketClient: no CLOSE-emitting site found")
     rec = fb.record(WC)
     flags = [x["n"] for x in (rec.get("fields") if rec else []) if "lose" in x["n"] and ("ent" in x["n"] or "ending" in x["n"]) and "choed" not in x["n"]]
+    la_c = ctx.locks()
+
+    def gate_of(f, depth=0):
+        """(function, test block, send elem) where a close-sent flag is tested and the frame handed to the transport"""
+        tb = [b for b in f.blocks.values() if b.cond is not None and any(fl in show(b.cond) for fl in flags)]
+        snd = [e for e in f.stmts() if e.node.get("k") == "mcall" and last(e.node.get("callee", "")) in ("sendRawBytes", "sendAsync")]
+        if tb and snd:
+            return f, tb[-1], snd[0]
+        if depth < 2:
+            for e in f.stmts():
+                c = e.node.get("callee") or ""
+                if e.node.get("k") == "mcall" and c.startswith(WC + "::") and last(c) not in ("sendRawBytes",):
+                    for g in fb.funcs(c, WCF):
+                        if g.ok:
+                            got = gate_of(g, depth + 1)
+                            if got:
+                                return got
+        return None
     for nm in ("sendText", "sendBinary", "sendPing"):
         f = fnc(ctx, WC, nm, WCF)
         r.instance()
-        tested = [fl for fl in flags if any(fl in show(b.cond) for b in f.blocks.values() if b.cond is not None)]
-        snd = [e for e in f.stmts() if e.node.get("k") == "mcall" and last(e.node.get("callee", "")) in ("sendRawBytes", "sendAsync")]
-        ok = bool(tested) and len(snd) == 1
+        got = gate_of(f) if flags else None
+        ok = got is not None
         if ok:
-            gb = [b for b in f.blocks.values() if b.cond is not None and tested[0] in show(b.cond)]
-            ok = search(f, ("entry",), lambda x: x is snd[0], stop=lambda x: any(x.block is b for b in gb), eh=False) is None
-        r.expect(ok, f, snd[0] if snd else None, "client data frame after close: %s" % nm, "WebSocketClient::%s tests only the connection state, and sendClose()/disconnect() emit a CLOSE frame without recording it (fields resembling a "
-                 "close-sent flag: %s): `c.sendClose(); c.%s(…)` puts a data frame on the wire after the CLOSE frame" % (nm, flags or "none", nm), okdesc="client %s: behind the close-sent flag `%s`" % (nm, tested[0] if tested else ""))
+            g, tb, snd = got
+            mus = la_c.mutexes(g, snd)
+            te = tb.elems[-1] if tb.elems else None
+            ok = bool(mus) and te is not None and any(la_c.holds(g, te, m) and la_c.holds(g, snd, m) for m in mus) and (dominated_by_edge(g, snd, tb, 1, eh=False) or dominated_by_edge(g, snd, tb, 0, eh=False))
+            # every direct hand-off in the sender itself goes through the gate
+            direct = [e for e in f.stmts() if e.node.get("k") == "mcall" and last(e.node.get("callee", "")) in ("sendRawBytes", "sendAsync")] if g is not f else []
+            ok = ok and not direct
+        r.expect(ok, f, None, "client data frame after close: %s" % nm, "WebSocketClient::%s does not hand its frame to the transport inside a critical section that first tests a close-sent flag set by every CLOSE-emitting path "
+                 "(flags found: %s): `c.sendClose(); c.%s(…)` puts a data frame on the wire after the CLOSE frame" % (nm, flags or "none", nm), okdesc="client %s: flag test + hand-off in one critical section" % nm)
     for (f, e) in closers:
         r.instance()
-        ok = bool(flags) and any(asg(x.node) and any(fl in show(asg(x.node)[0]) for fl in flags) or (x.node.get("k") == "mcall" and last(x.node.get("callee", "")) in ("store", "exchange") and any(fl in show(x.node.get("obj") or {}) for fl in flags))
-                                 for x in f.stmts())
-        r.expect(ok, f, e, "client CLOSE not recorded: %s" % last(f.name), "WebSocketClient::%s emits a CLOSE frame without setting a close-sent flag" % last(f.name), okdesc="client %s records the CLOSE" % last(f.name))
+        sets = [x for x in f.stmts() if (asg(x.node) and any(fl in show(asg(x.node)[0]) for fl in flags)) or
+                (x.node.get("k") == "mcall" and last(x.node.get("callee", "")) in ("store", "exchange") and any(fl in show(x.node.get("obj") or {}) for fl in flags))]
+        snds = [x for x in f.stmts() if x.node.get("k") == "mcall" and last(x.node.get("callee", "")) in ("sendRawBytes", "sendAsync")]
+        ok = bool(flags) and bool(sets) and bool(snds)
+        if ok:
+            ok = False
+            for st in sets:
+                for sd in snds:
+                    ms = set(la_c.mutexes(f, st)) & set(la_c.mutexes(f, sd))
+                    if ms and (search(f, st, lambda x, sd=sd: x is sd, stop=lambda x, m=list(ms)[0]: not la_c.holds(f, x, m), eh=False) is not None or
+                               search(f, sd, lambda x, st=st: x is st, stop=lambda x, m=list(ms)[0]: not la_c.holds(f, x, m), eh=False) is not None):
+                        ok = True
+        r.expect(ok, f, e, "client CLOSE not recorded: %s" % last(f.name), "WebSocketClient::%s emits a CLOSE frame without setting the close-sent flag in the same critical section as the hand-off to the transport "
+                 "(a data sender can pass its test between the two)" % last(f.name), okdesc="client %s: flag set + CLOSE hand-off in one critical section" % last(f.name))
 
 
 def delivered_source(f, cbname):
